@@ -34,17 +34,20 @@ func init() {
 		ID:    "C09",
 		Level: "exploration",
 		Race:  true,
-		Rule: "(a) runs of N=8..64 goroutines sending requests to one handler instance (9 operations: path/query/header/array/body parameters, OR and AND security requirements, an operation whose two alternatives have different scopes and can be satisfied at once, two produces, a Responder result, consumers that stamp their media type), each request carrying a unique token in every position; a quarter of the requests are driven accessor by accessor (RouteInfo, Authorize, BindAndValidate — or, for half of them, the generated-server sequence BindValidRequest with a binder of its own, then Respond) and read back the stored principal, scopes and matched route; about a quarter of the requests must be refused (unacceptable Accept, non-admitted or malformed Content-Type, missing/ill-typed required query parameter, rejected credential, no credentials, unknown path, undeclared method), each judged by its expected status and by the operation handler not having run for its token; " +
+		Rule: "(a) runs of N=8..64 goroutines sending requests to one server (13 operations: path/query/header/array/body parameters, two path parameters in one segment, typed array parameters with declared defaults that most requests leave out, OR and AND security requirements, an operation whose two alternatives have different scopes and can be satisfied at once, two produces, a Responder result, a 204 and a HEAD operation, consumers that stamp their media type; handlers that normalise the slices they are handed in place), each request carrying a unique token in every position; the same registrations are served by two handler instances, middleware.NewContext over the untyped API and middleware.NewRoutableContext over a RoutableAPI whose operation handlers run RouteInfo, Authorize, BindValidRequest, handler, Respond (APIHandler), each request going to one of them; a quarter of the requests are driven accessor by accessor (RouteInfo, Authorize, BindAndValidate on the first — or, for half of them, BindValidRequest with a binder of its own, then Respond, on the second) and read back the stored principal, scopes and matched route; a fifth are served inside a wrapping middleware that asks RouteInfo first, serves the request value it was returned and reads the route again (and asks again) when the handler has returned; about a quarter of the requests must be refused (unacceptable Accept, non-admitted or malformed Content-Type, missing/ill-typed required query parameter, rejected credential, no credentials, a principal the authorizer refuses, unknown path, undeclared method), each judged by its expected status and by the operation handler not having run for its token; some served requests are answered by the handler's own error; a served request is served by the handler of its own operation; per run, route lookups that found a route <= requests that have one, request validations <= requests bound through BindAndValidate, and no request reaches a Builder middleware or a generated handler without its matched route; " +
 			"GOMAXPROCS in {1,2,4,16}; a PRNG-driven hook callback yields/sleeps at the inter-stage suspension points and records the hook trace; built with -race. " +
-			"(b) random sequences (<=12, with repetition) over RouteInfo/ContentType/ResponseFormat/Authorize/BindAndValidate/ResetAuth on one request (its own token per sequence; key / bearer / both / bad / nil-principal / no credentials; binding outcomes valid, 415, and invalid for validation reasons only), threading the returned request, judged by a 5-flag reference state machine over authenticator/consumer/lookup/validation/body-read counters; the first answer of each stage is judged against the request's own values (ContentType: media type and charset, both compared on every later ask), the Content-Type header is rewritten after its first parse and the first BindAndValidate after it must judge the body by the parsed value, and a third of the sequences are preceded by the same request asked once and another client's request to the same operation (the grant must not change). " +
-			"non-trivial = (a) a run in which >= 2 requests were in flight at once (measured), distinct by hook-trace hash; (b) a sequence with >= 1 repeated accessor, distinct by (request shape, sequence)",
+			"(b) random sequences (<=15, with repetition) over RouteInfo/ContentType/ResponseFormat/Authorize/BindAndValidate/ResetAuth/Respond (and BindValidRequest into a parameter struct for body-less requests) on one request (its own token per sequence; key / bearer / both / bad / nil-principal / refused-by-the-authorizer / no credentials; binding outcomes valid, 415, and invalid for validation reasons only), on either Context, threading the returned request, judged by a 5-flag reference state machine over authenticator/consumer/lookup/validation/body-read counters; the first answer of each stage is judged against the request's own values (ContentType: media type and charset, both compared on every later ask; RouteInfo: pattern, operation, parameters, compared on every later ask), the Content-Type header is rewritten after its first parse and the first BindAndValidate after it must judge the body by the parsed value, Respond after a successful negotiation must answer in that format whatever list it is handed, a third of the sequences end with the whole handler serving the threaded request value (no lookup, no authenticator call after a principal, no second consumer run or validation after a binding; the route reads the same afterwards) followed by the askers again, and a third of the sequences are preceded by the same request asked once and another client's request to the same operation (the grant must not change). " +
+			"non-trivial = (a) a run in which >= 2 requests were in flight at once (measured), distinct by hook-trace hash; (b) a sequence with >= 1 repeated accessor, distinct by (request shape, sequence); a worker in which fewer than half of the concurrent runs overlapped counts none of its sequences",
 		Assumptions: []string{
 			"isolation is judged by token equality on everything observable: MatchedRoute params seen by a Builder wrapper, the principal shown to the authorizer, bound values, selected producer/content type echoed in the response",
 			"an anonymous admission (nil principal) and a failed stage are not memoisable and may be recomputed",
 			"which of two alternatives a request satisfies at once admits it is not stated; that it is the same one for every such request to one handler instance, whatever was served before, is (derived from that request alone)",
 			"the race detector only reports races on accesses that executed",
+			"an operation handler (and a caller of BindAndValidate / BindValidRequest) owns the values it is handed and may modify them in place; a request that leaves a parameter out is bound to the declared default, in the declared order",
+			"binding into a parameter struct uses an UntypedRequestBinder the application builds once per operation and shares between its requests (the route's own binder names its parameters <in>#<GoName> and cannot bind into a struct); such bindings are part of the concurrent runs",
+			"a 204 or HEAD answer is judged by its status, by the handler that ran for its token and by its Content-Type if it has one; the number of route lookups below the number of routed requests is recorded, not judged",
 		},
-		MinNontrivial: 20,
+		MinNontrivial: 500,
 		QuickShards:   4,
 		ThorShards:    16,
 		Run:           run,
@@ -56,6 +59,7 @@ func init() {
 
 func apiDesc() gen.Desc {
 	str := func(name, in string) gen.Param { return gen.Param{Name: name, In: in, Type: "string"} }
+	req := func(name, in string) gen.Param { return gen.Param{Name: name, In: in, Type: "string", Required: true} }
 	pathP := func(name string) gen.Param { return gen.Param{Name: name, In: "path", Type: "string", Required: true} }
 	d := gen.Desc{
 		BasePath: "/api",
@@ -67,7 +71,7 @@ func apiDesc() gen.Desc {
 			"oa":  {Type: "oauth2", Scopes: map[string]string{"read": "r", "write": "w"}},
 		},
 		Ops: []gen.Op{
-			{ID: "getA", Method: "GET", Template: "/a/{id}", Params: []gen.Param{pathP("id"), str("q", "query"), str("X-H", "header")},
+			{ID: "getA", Method: "GET", Template: "/a/{id}", Params: []gen.Param{pathP("id"), req("q", "query"), str("X-H", "header")},
 				Security: []gen.SecReq{{"key": {}}, {"tok": {}}}},
 			{ID: "postA", Method: "POST", Template: "/a/{id}", Params: []gen.Param{pathP("id"), {Name: "body", In: "body", Required: true}},
 				Security: []gen.SecReq{{"key": {}, "tok": {}}}},
@@ -81,15 +85,38 @@ func apiDesc() gen.Desc {
 			{ID: "postW", Method: "POST", Template: "/w/{id}", Params: []gen.Param{pathP("id"), {Name: "body", In: "body", Required: true}},
 				Consumes: []string{"text/*"}},
 			// two alternatives with different scopes: a request may satisfy both at once
-			{ID: "getS", Method: "GET", Template: "/s/{id}", Params: []gen.Param{pathP("id"), str("q", "query")},
+			{ID: "getS", Method: "GET", Template: "/s/{id}", Params: []gen.Param{pathP("id"), req("q", "query")},
 				Security: []gen.SecReq{{"key": {}}, {"oa": {"read"}}}},
 			// a binding outcome that is invalid for validation reasons only (required/typed query parameter) next to a body
 			{ID: "postV", Method: "POST", Template: "/v/{id}", Params: []gen.Param{pathP("id"),
 				{Name: "n", In: "query", Type: "integer", Format: "int32", Required: true}, {Name: "body", In: "body", Required: true}}},
+			// two path parameters inside one path segment
+			{ID: "getC", Method: "GET", Template: "/c/{a}.{b}", Params: []gen.Param{pathP("a"), pathP("b"), req("q", "query")}},
+			// typed array parameters with declared defaults: a request that omits them is bound to the declared
+			// values, whatever the handlers of other requests did with the values THEY were handed
+			{ID: "getD", Method: "GET", Template: "/d/{id}", Params: []gen.Param{pathP("id"),
+				{Name: "tags", In: "query", Type: "array", ItemsType: "string", Default: declTags()},
+				{Name: "sizes", In: "query", Type: "array", ItemsType: "integer", ItemsFormat: "int32", Default: declSizes()},
+				{Name: "X-L", In: "header", Type: "array", ItemsType: "string", CollectionFormat: "csv", Default: declLabels()}}},
+			// answers without a body: 204, HEAD
+			{ID: "delN", Method: "DELETE", Template: "/n/{id}", Params: []gen.Param{pathP("id")}, SuccessCode: 204},
+			{ID: "headH", Method: "HEAD", Template: "/h/{id}", Params: []gen.Param{pathP("id"), str("q", "query")}},
 		},
 	}
 	return d
 }
+
+// the declared defaults of getD's array parameters (fresh values on every call: nothing of the harness is
+// shared with the description handed to the library)
+func declTags() []interface{}   { return []interface{}{"zebra", "Apple"} }
+func declSizes() []interface{}  { return []interface{}{30, 10, 20} }
+func declLabels() []interface{} { return []interface{}{"m", "K", "b"} }
+
+const (
+	declTagsText   = "zebra,Apple"
+	declSizesText  = "30,10,20"
+	declLabelsText = "m,K,b"
+)
 
 type crosstalk struct {
 	mu   sync.Mutex
@@ -105,9 +132,21 @@ func (c *crosstalk) add(s string) {
 }
 
 type server struct {
-	ctx       *middleware.Context
-	handler   http.Handler
-	xt        *crosstalk
+	// the untyped entry point: middleware.NewContext over the untyped.API
+	ctx     *middleware.Context
+	handler http.Handler
+	// the entry point of generated servers: middleware.NewRoutableContext over a RoutableAPI whose operation
+	// handlers run RouteInfo -> Authorize -> BindValidRequest -> handler -> Respond (same registrations)
+	gapi     *gen.GeneratedAPI
+	gctx     *middleware.Context
+	ghandler http.Handler
+
+	xt *crosstalk
+	// requests to a declared path and method that reached a Builder middleware without a matched route
+	unrouted *crosstalk
+	// reflect-built parameter structs, per operation
+	structTypes sync.Map
+
 	authCalls int64
 	consumed  int64
 	lookups   int64
@@ -118,38 +157,42 @@ type server struct {
 	both   map[string]string
 	hist   []string
 
-	// tokens of the requests whose operation handler ran
+	// tokens of the requests whose operation handler ran -> the operation whose handler it was
 	ran sync.Map
 }
 
 // noteRan records, from the parameters an operation handler was given, whose request it is serving.
-func (s *server) noteRan(params interface{}) {
+func (s *server) noteRan(op string, params interface{}) {
 	pm, _ := params.(map[string]interface{})
 	for _, v := range pm {
 		switch x := v.(type) {
 		case string:
-			s.ran.Store(tokenOf(x), true)
+			s.ran.Store(tokenOf(x), op)
 		case []string:
 			for _, e := range x {
-				s.ran.Store(tokenOf(e), true)
+				if strings.IndexByte(e, '~') > 0 {
+					s.ran.Store(tokenOf(e), op)
+				}
 			}
 		case map[string]interface{}:
 			if t, ok := x["t"].(string); ok {
-				s.ran.Store(t, true)
+				s.ran.Store(t, op)
 			}
 		}
 	}
 }
 
 // noteBoth records which of its two credentials identified a request satisfying two alternatives at once.
-func (s *server) noteBoth(op, token, which string) {
+// (instance: the handler instance — each of the two Contexts has its own router, and the order in which a
+// router consults the schemes of one alternative is fixed per router, not per description)
+func (s *server) noteBoth(instance, op, token, which string) {
 	s.bothMu.Lock()
 	defer s.bothMu.Unlock()
 	if s.both == nil {
 		s.both = map[string]string{}
 	}
-	if prev, ok := s.both[op]; !ok {
-		s.both[op] = which
+	if prev, ok := s.both[instance+op]; !ok {
+		s.both[instance+op] = which
 	} else if prev != which && len(s.hist) < 20 {
 		s.hist = append(s.hist, fmt.Sprintf("%s: request of token %q carrying both credentials was identified by %q, an earlier one by %q", op, token, which, prev))
 	}
@@ -174,7 +217,7 @@ func buildServer() (*server, error) {
 	if err != nil {
 		return nil, err
 	}
-	s := &server{xt: &crosstalk{}}
+	s := &server{xt: &crosstalk{}, unrouted: &crosstalk{}}
 	api := untyped.NewAPI(doc)
 	// every consumer stamps the media type it is registered for into what it decodes
 	for _, mt := range []string{"application/json", "text/plain", "text/x-a", "text/x-b", "text/x-c"} {
@@ -248,7 +291,7 @@ func buildServer() (*server, error) {
 			}
 			if k, b := r.Header.Get("X-Key"), r.Header.Get("Authorization"); k != "" && b != "" && !unusable(k) && !unusable(b) {
 				if mr := middleware.MatchedRouteFrom(r); mr != nil && mr.Operation != nil {
-					s.noteBoth(mr.Operation.ID, want, suffixOf(ps))
+					s.noteBoth(fmt.Sprintf("%p ", mr.Binder), mr.Operation.ID, want, suffixOf(ps))
 				}
 			}
 		}
@@ -259,28 +302,30 @@ func buildServer() (*server, error) {
 				}
 			}
 		}
+		// the application refuses some principals: nothing but this request's own principal decides
+		if ps, ok := p.(string); ok && strings.HasSuffix(ps, "~deny") {
+			return oerrors.New(http.StatusForbidden, "principal %s may not do this", ps)
+		}
 		return nil
 	}))
 	for i := range d.Ops {
 		op := d.Ops[i]
 		api.RegisterOperation(op.Method, op.Template, rt.OperationHandlerFunc(func(params interface{}) (interface{}, error) {
 			runtime.Gosched()
-			s.noteRan(params)
-			res := map[string]interface{}{"op": op.ID, "bound": params}
-			if op.ID == "delA" {
-				return middleware.ResponderFunc(func(rw http.ResponseWriter, pr rt.Producer) {
-					rw.WriteHeader(200)
-					_ = pr.Produce(rw, res)
-				}), nil
-			}
-			return res, nil
+			pm, _ := params.(map[string]interface{})
+			return s.operate(op.ID, pm)
 		}))
 	}
-	s.ctx = middleware.NewContext(doc, api, nil)
-	s.handler = s.ctx.RoutesHandler(func(next http.Handler) http.Handler {
+	builder := func(next http.Handler) http.Handler {
 		return http.HandlerFunc(func(w http.ResponseWriter, r *http.Request) {
 			want := r.Header.Get("X-Token")
-			if mr := middleware.MatchedRouteFrom(r); mr != nil && want != "" {
+			mr := middleware.MatchedRouteFrom(r)
+			if mr == nil && want != "" {
+				// a Builder middleware runs for routed requests only, inside the router: the request it is handed
+				// is the one the route lookup returned
+				s.unrouted.add(fmt.Sprintf("builder: %s %s (token %q) carries no matched route", r.Method, r.URL.RequestURI(), want))
+			}
+			if mr != nil && want != "" {
 				for _, p := range mr.Params {
 					if tokenOf(p.Value) != want {
 						s.xt.add(fmt.Sprintf("builder: request of token %q has matched-route param %s=%q", want, p.Name, p.Value))
@@ -289,14 +334,105 @@ func buildServer() (*server, error) {
 				if !strings.HasPrefix(r.URL.Path, strings.SplitN(mr.PathPattern, "{", 2)[0]) {
 					s.xt.add(fmt.Sprintf("builder: request %q matched pattern %q", r.URL.Path, mr.PathPattern))
 				}
-				if mr.Consumer != nil || mr.Authenticator != nil {
+				// (a request whose route an accessor sequence has already asked about says so: X-Asked)
+				if (mr.Consumer != nil || mr.Authenticator != nil) && r.Header.Get("X-Asked") == "" {
 					s.xt.add(fmt.Sprintf("builder: fresh matched route of %q already has consumer/authenticator set", r.URL.Path))
 				}
 			}
 			next.ServeHTTP(w, r)
 		})
-	})
+	}
+	s.ctx = middleware.NewContext(doc, api, nil)
+	s.handler = s.ctx.RoutesHandler(builder)
+
+	// the same registrations behind the constructor generated servers use
+	s.gapi = gen.NewGeneratedAPI(api)
+	for i := range d.Ops {
+		op := d.Ops[i]
+		s.gapi.Operation(op.Method, op.Template, gen.GeneratedOp{
+			Authorized: len(op.Security) > 0,
+			NewBinder:  func() middleware.RequestBinder { return &genParams{s: s} },
+			Handle: func(r *http.Request, params middleware.RequestBinder, principal interface{}) interface{} {
+				runtime.Gosched()
+				s.checkGenerated(r, principal)
+				gp, _ := params.(*genParams)
+				res, err := s.operate(op.ID, gp.bound)
+				if err != nil {
+					return err
+				}
+				return res
+			},
+		})
+	}
+	s.gctx = middleware.NewRoutableContext(doc, s.gapi, nil)
+	s.gapi.SetContext(s.gctx)
+	s.ghandler = s.gctx.APIHandler(builder)
 	return s, nil
+}
+
+// operate is the application's handler of every operation: it reports the values it was handed, as they were
+// when it got them, then normalises its slices in place (the bound values are its own), and fails on request.
+func (s *server) operate(opID string, pm map[string]interface{}) (interface{}, error) {
+	s.noteRan(opID, pm)
+	seen := takeAndNormalise(pm)
+	for _, v := range pm {
+		if sv, ok := v.(string); ok && strings.HasSuffix(sv, "~fail") {
+			return nil, oerrors.New(http.StatusTeapot, "handler of %s fails for %s", opID, tokenOf(sv))
+		}
+	}
+	res := map[string]interface{}{"op": opID, "bound": seen}
+	if opID == "delA" {
+		return middleware.ResponderFunc(func(rw http.ResponseWriter, pr rt.Producer) {
+			rw.WriteHeader(200)
+			_ = pr.Produce(rw, res)
+		}), nil
+	}
+	return res, nil
+}
+
+// takeAndNormalise returns a copy of the bound values as they are, then lower-cases and sorts the slices in
+// place, as a handler that normalises its input does.
+func takeAndNormalise(pm map[string]interface{}) map[string]interface{} {
+	seen := make(map[string]interface{}, len(pm))
+	for k, v := range pm {
+		switch x := v.(type) {
+		case []string:
+			seen[k] = append([]string{}, x...)
+			for i := range x {
+				x[i] = strings.ToLower(x[i])
+			}
+			sort.Strings(x)
+		case []int32:
+			seen[k] = append([]int32{}, x...)
+			sort.Slice(x, func(i, j int) bool { return x[i] < x[j] })
+		default:
+			seen[k] = v
+		}
+	}
+	return seen
+}
+
+// checkGenerated: what the handler of a generated server is shown belongs to the request it serves.
+func (s *server) checkGenerated(r *http.Request, principal interface{}) {
+	want := r.Header.Get("X-Token")
+	if ps, ok := principal.(string); ok && ps != "" && tokenOf(strings.TrimPrefix(ps, "P:")) != want {
+		s.xt.add(fmt.Sprintf("generated handler: request of token %q handed principal %q", want, ps))
+	}
+	if principal != nil {
+		if sp := middleware.SecurityPrincipalFrom(r); sp != principal {
+			s.xt.add(fmt.Sprintf("generated handler: request of token %q handed principal %v, its request value carries %v", want, principal, sp))
+		}
+	}
+	mr := middleware.MatchedRouteFrom(r)
+	if mr == nil {
+		s.unrouted.add(fmt.Sprintf("generated handler: %s %s (token %q) carries no matched route", r.Method, r.URL.RequestURI(), want))
+		return
+	}
+	for _, p := range mr.Params {
+		if tokenOf(p.Value) != want {
+			s.xt.add(fmt.Sprintf("generated handler: request of token %q has matched-route param %s=%q", want, p.Name, p.Value))
+		}
+	}
 }
 
 // ---------- (a) concurrent isolation ----------
@@ -329,8 +465,18 @@ type reqSpec struct {
 	refuse string
 	// wantAny: the statuses a refusal of that class may answer with
 	wantAny []int
-	// generated: the direct flow binds with BindValidRequest and a binder of its own and answers with Respond
+	// generated: the direct flow binds with BindValidRequest and a binder of its own and answers with Respond,
+	// on the Context generated servers build (NewRoutableContext)
 	generated bool
+	// routable: a request served by the whole handler goes through the handler of the generated-server Context
+	routable bool
+	// wrapped: a middleware around the whole handler asks RouteInfo first, serves the request value it was
+	// returned, and looks at the route again once the handler has returned
+	wrapped bool
+	// structTarget: the binder of the generated-server flows binds into a parameter struct
+	structTarget bool
+	// fail: the operation handler answers this request with an error of its own (418)
+	fail bool
 }
 
 // refusalStatus: what a refused request of each class is answered with. A malformed Content-Type is refused
@@ -341,13 +487,15 @@ var refusalStatus = map[string][]int{
 	"ctbad":  {400, 415},
 	"query":  {422},
 	"cred":   {401},
+	"deny":   {403},
 	"nocred": {401},
 	"path":   {404},
 	"method": {405},
 }
 
 func mkRequest(r *rand.Rand, token string) *reqSpec {
-	ops := []string{"getA", "postA", "putB", "delA", "getB", "postW", "postE", "postE", "getS", "getS", "postV"}
+	ops := []string{"getA", "postA", "putB", "delA", "getB", "postW", "postE", "postE", "getS", "getS", "postV",
+		"getC", "getC", "getD", "getD", "getD", "delN", "headH"}
 	op := ops[r.Intn(len(ops))]
 	acc := []string{"application/json", "text/plain"}[r.Intn(2)]
 	rs := &reqSpec{op: op, token: token, accept: acc, expect: map[string]string{}}
@@ -355,27 +503,54 @@ func mkRequest(r *rand.Rand, token string) *reqSpec {
 	// about a quarter of the requests are refusals of one class each, interleaved with served requests to
 	// the same routes
 	if r.Intn(4) == 0 {
-		rs.refuse = []string{"accept", "ct", "ctbad", "query", "cred", "path", "method"}[r.Intn(7)]
+		rs.refuse = []string{"accept", "ct", "ctbad", "query", "query", "cred", "path", "method", "deny"}[r.Intn(9)]
 		hasBody := op == "postA" || op == "postE" || op == "postW" || op == "postV"
 		hasCred := op == "getA" || op == "postA" || op == "delA" || op == "getB" || op == "postE"
+		hasReqQuery := op == "postV" || op == "getA" || op == "getS" || op == "getC"
 		switch {
 		case (rs.refuse == "ct" || rs.refuse == "ctbad") && !hasBody,
-			rs.refuse == "query" && op != "postV",
-			rs.refuse == "cred" && !hasCred:
+			rs.refuse == "query" && !hasReqQuery,
+			(rs.refuse == "cred" || rs.refuse == "deny") && !hasCred:
 			rs.refuse = ""
 		}
 	}
-	// a credential its scheme rejects
+	// a served request whose handler fails
+	if rs.refuse == "" && (op == "getA" || op == "getB" || op == "getS" || op == "getC") && r.Intn(8) == 0 {
+		rs.fail = true
+	}
+	// a credential its scheme rejects / a credential of a principal the application's authorizer refuses
 	c := func(s string) string {
-		if rs.refuse == "cred" {
+		switch rs.refuse {
+		case "cred":
 			return token + "~" + s + "~bad"
+		case "deny":
+			return token + "~" + s + "~deny"
 		}
 		return token + "~" + s
+	}
+	// every credential of a conjunction is a refused principal's (whichever one is shown to the authorizer)
+	dn := func(s string) string {
+		if rs.refuse == "deny" {
+			return token + "~" + s + "~deny"
+		}
+		return token + "~" + s
+	}
+	// the required query parameter q: left out by the refusal class "query", marked when the handler is to fail
+	qv := v("q")
+	if rs.fail {
+		qv = v("q") + "~fail"
+	}
+	withQ := func(q url.Values) url.Values {
+		if rs.refuse != "query" {
+			q.Set("q", qv)
+			rs.expect["q"] = qv
+		}
+		return q
 	}
 	var req *http.Request
 	switch op {
 	case "getA":
-		q := url.Values{"q": {v("q")}}
+		q := withQ(url.Values{})
 		if r.Intn(2) == 0 {
 			q.Set("tok", c("tk"))
 			rs.creds = []string{c("tk")}
@@ -386,18 +561,18 @@ func mkRequest(r *rand.Rand, token string) *reqSpec {
 			rs.creds = []string{c("k")}
 		}
 		req.Header.Set("X-H", v("h"))
-		rs.expect["id"], rs.expect["q"], rs.expect["X-H"] = v("id"), v("q"), v("h")
+		rs.expect["id"], rs.expect["X-H"] = v("id"), v("h")
 	case "postA":
 		body := fmt.Sprintf(`{"t":%q}`, token)
-		req = httptest.NewRequest("POST", "/api/a/"+url.PathEscape(v("id"))+"?tok="+url.QueryEscape(v("tk")), strings.NewReader(body))
+		req = httptest.NewRequest("POST", "/api/a/"+url.PathEscape(v("id"))+"?tok="+url.QueryEscape(dn("tk")), strings.NewReader(body))
 		req.Header.Set("Content-Type", "application/json")
 		req.Header.Set("X-Key", c("k")) // refused even when the other scheme of the AND accepts
-		rs.creds = []string{c("k"), v("tk")}
+		rs.creds = []string{c("k"), dn("tk")}
 		rs.expect["id"] = v("id")
 		rs.expBody = token
 		rs.ct = "application/json"
 	case "getS":
-		req = httptest.NewRequest("GET", "/api/s/"+url.PathEscape(v("id"))+"?q="+url.QueryEscape(v("q")), nil)
+		req = httptest.NewRequest("GET", "/api/s/"+url.PathEscape(v("id"))+"?"+withQ(url.Values{}).Encode(), nil)
 		which := r.Intn(3)
 		if which != 1 {
 			req.Header.Set("X-Key", v("k"))
@@ -408,7 +583,7 @@ func mkRequest(r *rand.Rand, token string) *reqSpec {
 			rs.creds = append(rs.creds, v("b"))
 			rs.bearer = v("b")
 		}
-		rs.expect["id"], rs.expect["q"] = v("id"), v("q")
+		rs.expect["id"] = v("id")
 	case "postE":
 		body := fmt.Sprintf(`{"t":%q}`, token)
 		req = httptest.NewRequest("POST", "/api/e", strings.NewReader(body))
@@ -438,13 +613,13 @@ func mkRequest(r *rand.Rand, token string) *reqSpec {
 		rs.creds = []string{c("tk")}
 		rs.expect["id"] = v("id")
 	case "getB":
-		req = httptest.NewRequest("GET", "/api/b/"+url.PathEscape(v("x"))+"?q="+url.QueryEscape(v("q")), nil)
-		if rs.refuse == "cred" || r.Intn(2) == 0 {
+		req = httptest.NewRequest("GET", "/api/b/"+url.PathEscape(v("x"))+"?q="+url.QueryEscape(qv), nil)
+		if rs.refuse == "cred" || rs.refuse == "deny" || r.Intn(2) == 0 {
 			// a rejected credential is not made good by the anonymous alternative
 			req.Header.Set("X-Key", c("k"))
 			rs.creds = []string{c("k")}
 		}
-		rs.expect["x"], rs.expect["q"] = v("x"), v("q")
+		rs.expect["x"], rs.expect["q"] = v("x"), qv
 	case "postV":
 		body := fmt.Sprintf(`{"t":%q}`, token)
 		target := "/api/v/" + url.PathEscape(v("id"))
@@ -460,6 +635,39 @@ func mkRequest(r *rand.Rand, token string) *reqSpec {
 		rs.expect["id"] = v("id")
 		rs.expBody = token
 		rs.ct = "application/json"
+	case "getC":
+		// two parameters in one path segment
+		req = httptest.NewRequest("GET", "/api/c/"+url.PathEscape(v("a"))+"."+url.PathEscape(v("b"))+"?"+withQ(url.Values{}).Encode(), nil)
+		rs.expect["a"], rs.expect["b"] = v("a"), v("b")
+	case "getD":
+		// array parameters with declared defaults, sent by some requests and left out by most
+		q := url.Values{}
+		rs.expect["tags"], rs.expect["sizes"], rs.expect["X-L"] = declTagsText, declSizesText, declLabelsText
+		if r.Intn(3) == 0 {
+			q.Set("tags", v("2")+","+v("1"))
+			rs.expect["tags"] = v("2") + "," + v("1")
+		}
+		if r.Intn(3) == 0 {
+			a, b := r.Intn(1000), r.Intn(1000)
+			q.Set("sizes", fmt.Sprintf("%d,%d", a, b))
+			rs.expect["sizes"] = fmt.Sprintf("%d,%d", a, b)
+		}
+		target := "/api/d/" + url.PathEscape(v("id"))
+		if len(q) > 0 {
+			target += "?" + q.Encode()
+		}
+		req = httptest.NewRequest("GET", target, nil)
+		if r.Intn(3) == 0 {
+			req.Header.Set("X-L", v("l2")+","+v("l1"))
+			rs.expect["X-L"] = v("l2") + "," + v("l1")
+		}
+		rs.expect["id"] = v("id")
+	case "delN":
+		req = httptest.NewRequest("DELETE", "/api/n/"+url.PathEscape(v("id")), nil)
+		rs.expect["id"] = v("id")
+	case "headH":
+		req = httptest.NewRequest("HEAD", "/api/h/"+url.PathEscape(v("id"))+"?q="+url.QueryEscape(v("q")), nil)
+		rs.expect["id"], rs.expect["q"] = v("id"), v("q")
 	}
 	req.Header.Set("X-Token", token)
 	// the same negotiated type asked in several spellings, some sharing their first header line with a
@@ -497,6 +705,12 @@ func mkRequest(r *rand.Rand, token string) *reqSpec {
 	rs.req = req
 	rs.direct = r.Intn(4) == 0
 	rs.generated = r.Intn(2) == 0
+	rs.routable = r.Intn(2) == 0
+	rs.wrapped = !rs.direct && r.Intn(4) == 0
+	rs.structTarget = structTargetsUnderConcurrency && r.Intn(2) == 0
+	if rs.structTarget {
+		req.Header.Set("X-Bind", "struct")
+	}
 	return rs
 }
 
@@ -512,6 +726,28 @@ func judgeResponse(rs *reqSpec, rec *httptest.ResponseRecorder) string {
 	if rs.wantStatus != 0 {
 		if rec.Code != rs.wantStatus {
 			return fmt.Sprintf("status %d, expected %d (the request carries no credentials); body %.120q", rec.Code, rs.wantStatus, rec.Body.String())
+		}
+		return ""
+	}
+	if rs.fail {
+		// the handler's own error, about this request
+		if rec.Code != http.StatusTeapot || !strings.Contains(rec.Body.String(), "fails for "+rs.token) {
+			return fmt.Sprintf("status %d body %.120q, the handler answered this request with its error 418 naming %q", rec.Code, rec.Body.String(), rs.token)
+		}
+		return ""
+	}
+	switch rs.op {
+	case "delN", "headH":
+		// answered without a body: what there is to see is the status and the negotiated type
+		want := 200
+		if rs.op == "delN" {
+			want = 204
+		}
+		if rec.Code != want {
+			return fmt.Sprintf("status %d, expected %d; body %.120q", rec.Code, want, rec.Body.String())
+		}
+		if ct := rec.Header().Get("Content-Type"); ct != "" && ct != rs.accept {
+			return fmt.Sprintf("content type %q, asked %q", ct, rs.accept)
 		}
 		return ""
 	}
@@ -556,6 +792,12 @@ func judgeBound(rs *reqSpec, bound map[string]interface{}) string {
 			gs = x
 		case []string:
 			gs = strings.Join(x, ",")
+		case []int32:
+			var l []string
+			for _, e := range x {
+				l = append(l, fmt.Sprint(e))
+			}
+			gs = strings.Join(l, ",")
 		case []interface{}:
 			var l []string
 			for _, e := range x {
@@ -566,6 +808,10 @@ func judgeBound(rs *reqSpec, bound map[string]interface{}) string {
 			gs = fmt.Sprint(got)
 		}
 		if gs != want {
+			if rs.op == "getD" && (want == declTagsText || want == declSizesText || want == declLabelsText) {
+				// the request leaves the parameter out: it is bound to the declared default
+				return sigMark("bound-default-differs/array-parameter") + fmt.Sprintf("bound %s=%q for a request that leaves it out, the declared default is %q", k, gs, want)
+			}
 			return fmt.Sprintf("bound %s=%q, sent %q", k, gs, want)
 		}
 	}
@@ -597,11 +843,15 @@ func (f binderFunc) BindRequest(r *http.Request, route *middleware.MatchedRoute)
 }
 
 // directFlow drives one request the way a generated server does: RouteInfo, Authorize, then either
-// BindAndValidate or (generated) BindValidRequest with a binder of its own followed by Respond, all on the
-// shared Context, reading back what each stage stored in the request it returned. A request that must be
-// refused is refused by the stage its class names.
+// BindAndValidate (on the untyped Context) or (generated) BindValidRequest with a binder of its own followed by
+// Respond (on the Context built by NewRoutableContext), reading back what each stage stored in the request it
+// returned. A request that must be refused is refused by the stage its class names.
 func (s *server) directFlow(rs *reqSpec) string {
-	rr, r1, ok := s.ctx.RouteInfo(rs.req)
+	ctx := s.ctx
+	if rs.generated {
+		ctx = s.gctx
+	}
+	rr, r1, ok := ctx.RouteInfo(rs.req)
 	if rs.refuse == "path" || rs.refuse == "method" {
 		if ok || rr != nil {
 			return fmt.Sprintf("RouteInfo found a route for %s %s, declared for nothing", rs.req.Method, rs.req.URL.Path)
@@ -611,25 +861,20 @@ func (s *server) directFlow(rs *reqSpec) string {
 	if !ok || rr == nil || r1 == nil {
 		return "RouteInfo found no route"
 	}
-	if rr.Operation == nil || rr.Operation.ID != rs.op {
-		return fmt.Sprintf("RouteInfo matched %q for a request to %q", rr.PathPattern, rs.op)
+	if msg := judgeRoute(rs, rr); msg != "" {
+		return msg
 	}
 	if mr := middleware.MatchedRouteFrom(r1); mr != rr {
 		return "the request RouteInfo returned does not carry the matched route it returned"
 	}
-	for _, p := range rr.Params {
-		if tokenOf(p.Value) != rs.token {
-			return fmt.Sprintf("matched-route param %s=%q in a request of token %q", p.Name, p.Value, rs.token)
-		}
-	}
 	cur := r1
-	p, r2, err := s.ctx.Authorize(cur, rr)
-	if rs.refuse == "nocred" || rs.refuse == "cred" {
+	p, r2, err := ctx.Authorize(cur, rr)
+	if rs.refuse == "nocred" || rs.refuse == "cred" || rs.refuse == "deny" {
 		if err == nil {
 			return fmt.Sprintf("Authorize admitted (principal %v) a request whose credentials are %v", p, rs.creds)
 		}
 		// a refusal is no result to reuse: asked again, the same request is refused again
-		if p2, _, err2 := s.ctx.Authorize(cur, rr); err2 == nil {
+		if p2, _, err2 := ctx.Authorize(cur, rr); err2 == nil {
 			return fmt.Sprintf("a second Authorize admitted (principal %v) the request the first refused (%v)", p2, err)
 		}
 		return ""
@@ -668,14 +913,14 @@ func (s *server) directFlow(rs *reqSpec) string {
 	}
 	var bm map[string]interface{}
 	if rs.generated {
-		// the binder decodes with the consumer the Context selected for this request
-		bm = map[string]interface{}{}
-		err = s.ctx.BindValidRequest(cur, rr, binderFunc(func(r *http.Request, route *middleware.MatchedRoute) error {
-			return route.Binder.Bind(r, route.Params, route.Consumer, bm)
-		}))
+		// the binder decodes with the consumer the Context selected for this request, into a map or into a
+		// parameter struct of its own
+		gp := &genParams{s: s}
+		err = ctx.BindValidRequest(cur, rr, gp)
+		bm = gp.bound
 	} else {
 		var bound interface{}
-		bound, _, err = s.ctx.BindAndValidate(cur, rr)
+		bound, _, err = ctx.BindAndValidate(cur, rr)
 		bm, _ = bound.(map[string]interface{})
 	}
 	switch rs.refuse {
@@ -686,31 +931,135 @@ func (s *server) directFlow(rs *reqSpec) string {
 		return ""
 	}
 	if err != nil {
-		return fmt.Sprintf("binding (generated=%v): %v", rs.generated, err)
+		return fmt.Sprintf("binding (generated=%v struct=%v): %v", rs.generated, rs.structTarget, err)
 	}
-	if msg := judgeBound(rs, bm); msg != "" || !rs.generated {
+	msg := judgeBound(rs, bm)
+	// the bound values are the caller's own: it normalises them in place, as a handler may
+	seen := takeAndNormalise(bm)
+	if msg != "" || !rs.generated {
 		return msg
 	}
 	rec := httptest.NewRecorder()
-	var data interface{} = map[string]interface{}{"op": rs.op, "bound": bm}
-	if rs.op == "delA" {
+	var data interface{} = map[string]interface{}{"op": rs.op, "bound": seen}
+	switch {
+	case rs.fail:
+		data = oerrors.New(http.StatusTeapot, "handler of %s fails for %s", rs.op, rs.token)
+	case rs.op == "delA":
 		res := data
 		data = middleware.ResponderFunc(func(rw http.ResponseWriter, pr rt.Producer) {
 			rw.WriteHeader(200)
 			_ = pr.Produce(rw, res)
 		})
 	}
-	s.ctx.Respond(rec, cur, rr.Produces, rr, data)
+	ctx.Respond(rec, cur, rr.Produces, rr, data)
 	return judgeResponse(rs, rec)
 }
+
+// judgeRoute: the matched route is the one of this request's operation, with this request's path values.
+func judgeRoute(rs *reqSpec, rr *middleware.MatchedRoute) string {
+	if rr.Operation == nil || rr.Operation.ID != rs.op {
+		return fmt.Sprintf("RouteInfo matched %q for a request to %q", rr.PathPattern, rs.op)
+	}
+	for _, p := range rr.Params {
+		if tokenOf(p.Value) != rs.token {
+			return fmt.Sprintf("matched-route param %s=%q in a request of token %q", p.Name, p.Value, rs.token)
+		}
+		if want, ok := rs.expect[p.Name]; ok && p.Value != want {
+			return fmt.Sprintf("matched-route param %s=%q, the path carries %q", p.Name, p.Value, want)
+		}
+	}
+	return ""
+}
+
+// routeSnap is what an asker can read off a matched route that no later stage of the same request changes.
+func routeSnap(rr *middleware.MatchedRoute) string {
+	if rr == nil {
+		return "<nil>"
+	}
+	op := "<nil>"
+	if rr.Operation != nil {
+		op = rr.Operation.ID
+	}
+	var sb strings.Builder
+	fmt.Fprintf(&sb, "pattern=%q operation=%s params=[", rr.PathPattern, op)
+	for _, p := range rr.Params {
+		fmt.Fprintf(&sb, "%s=%q ", p.Name, p.Value)
+	}
+	fmt.Fprintf(&sb, "] consumes=%v produces=%v binder=%v", rr.Consumes, rr.Produces, rr.Binder != nil)
+	return sb.String()
+}
+
+// wrappedFlow is a middleware around the whole handler (access log, metrics, audit): it asks RouteInfo, lets
+// the handler serve the request value RouteInfo returned, and looks at the route again when the handler has
+// returned. It is an earlier asker that still holds the request value: the route it reads, and the route a new
+// RouteInfo on that request value answers, are the ones of its own request.
+func (s *server) wrappedFlow(rs *reqSpec, rec *httptest.ResponseRecorder) string {
+	ctx, h := s.ctx, s.handler
+	if rs.routable {
+		ctx, h = s.gctx, s.ghandler
+	}
+	rr, r1, ok := ctx.RouteInfo(rs.req)
+	if rs.refuse == "path" || rs.refuse == "method" {
+		if ok || rr != nil {
+			return fmt.Sprintf("RouteInfo found a route for %s %s, declared for nothing", rs.req.Method, rs.req.URL.Path)
+		}
+		h.ServeHTTP(rec, rs.req)
+		return ""
+	}
+	if !ok || rr == nil || r1 == nil {
+		return "RouteInfo found no route"
+	}
+	if msg := judgeRoute(rs, rr); msg != "" {
+		return msg
+	}
+	before := routeSnap(rr)
+	h.ServeHTTP(rec, r1)
+	if after := routeSnap(rr); after != before {
+		return keptRoute + fmt.Sprintf("the route RouteInfo answered before the handler ran read {%s}; after the handler returned it reads {%s}", before, after)
+	}
+	rr2, _, ok2 := ctx.RouteInfo(r1)
+	if !ok2 || rr2 == nil {
+		return keptRoute + "RouteInfo on the request value the first RouteInfo returned finds no route after the handler returned"
+	}
+	if rr2 != rr {
+		return keptRoute + "RouteInfo on the request value the first RouteInfo returned answers another MatchedRoute after the handler returned"
+	}
+	if again := routeSnap(rr2); again != before {
+		return keptRoute + fmt.Sprintf("RouteInfo asked again after the handler returned answers {%s}, first {%s}", again, before)
+	}
+	return ""
+}
+
+// sigMark prefixes a message that has a signature of its own; splitSig takes it off again.
+func sigMark(sig string) string { return "\x01" + sig + "\x01" }
+
+func splitSig(msg string) (sig, rest string) {
+	if strings.HasPrefix(msg, "\x01") {
+		if j := strings.IndexByte(msg[1:], 1); j >= 0 {
+			return msg[1 : 1+j], msg[2+j:]
+		}
+	}
+	return "", msg
+}
+
+// keptRoute marks the messages of the earlier asker that kept a route across the handler.
+var keptRoute = sigMark("matched-route-not-kept/earlier-asker-across-the-handler")
 
 type hookSched struct {
 	mu    sync.Mutex
 	trace []string
 	state uint64
+	// route lookups that found a route / request validations, over the run
+	lookups, validations int64
 }
 
 func (h *hookSched) at(point string) {
+	switch point {
+	case "mw.route.found":
+		atomic.AddInt64(&h.lookups, 1)
+	case "mw.validate.afterContentType":
+		atomic.AddInt64(&h.validations, 1)
+	}
 	h.mu.Lock()
 	h.state = h.state*6364136223846793005 + 1442695040888963407
 	d := h.state >> 59 // 0..31
@@ -731,21 +1080,24 @@ func (h *hookSched) at(point string) {
 	}
 }
 
-func runConcurrent(m *mon.M, cfg *RunCfg) {
+// runConcurrent reports whether requests overlapped (in every repetition).
+func runConcurrent(m *mon.M, cfg *RunCfg) bool {
 	rep := cfg.Repeat
 	if rep <= 0 {
 		rep = 1
 	}
+	all := true
 	for k := 0; k < rep; k++ {
-		runConcurrentOnce(m, cfg, int64(k))
+		all = runConcurrentOnce(m, cfg, int64(k)) && all
 	}
+	return all
 }
 
-func runConcurrentOnce(m *mon.M, cfg *RunCfg, salt int64) {
+func runConcurrentOnce(m *mon.M, cfg *RunCfg, salt int64) (overlap bool) {
 	s, err := buildServer()
 	if err != nil {
 		m.Violate("harness-build-failed", err.Error(), cfg)
-		return
+		return false
 	}
 	prev := runtime.GOMAXPROCS(cfg.MaxProcs)
 	defer runtime.GOMAXPROCS(prev)
@@ -757,9 +1109,13 @@ func runConcurrentOnce(m *mon.M, cfg *RunCfg, salt int64) {
 	var wg sync.WaitGroup
 	var mu sync.Mutex
 	var bad []string
+	badOwn := map[string][]string{}
 	badRefusal := map[string][]string{}
 	nByClass := map[string]int64{}
 	var served int64
+	// requests that have a route (each is looked up exactly once, whoever asks first) / requests whose flow
+	// asks BindAndValidate (each is validated at most once)
+	var routed, validating int64
 	start := make(chan struct{})
 	for g := 0; g < cfg.Goroutines; g++ {
 		wg.Add(1)
@@ -778,11 +1134,22 @@ func runConcurrentOnce(m *mon.M, cfg *RunCfg, salt int64) {
 						break
 					}
 				}
+				if rs.refuse != "path" && rs.refuse != "method" {
+					atomic.AddInt64(&routed, 1)
+					if (rs.direct && !rs.generated) || (!rs.direct && !rs.routable) {
+						atomic.AddInt64(&validating, 1)
+					}
+				}
 				var msg string
 				pv, st := mon.Catch(func() {
-					if rs.direct {
+					switch {
+					case rs.direct:
 						msg = s.directFlow(rs)
-					} else {
+					case rs.wrapped:
+						msg = s.wrappedFlow(rs, rec)
+					case rs.routable:
+						s.ghandler.ServeHTTP(rec, rs.req)
+					default:
 						s.handler.ServeHTTP(rec, rs.req)
 					}
 				})
@@ -790,7 +1157,7 @@ func runConcurrentOnce(m *mon.M, cfg *RunCfg, salt int64) {
 				atomic.AddInt64(&served, 1)
 				if pv != nil {
 					msg = fmt.Sprintf("panic: %v\n%s", pv, st)
-				} else if !rs.direct {
+				} else if !rs.direct && msg == "" {
 					msg = judgeResponse(rs, rec)
 				}
 				if msg == "" && rs.refuse != "" {
@@ -798,11 +1165,37 @@ func runConcurrentOnce(m *mon.M, cfg *RunCfg, salt int64) {
 						msg = fmt.Sprintf("the operation handler ran for a request that must be refused (class %q)", rs.refuse)
 					}
 				}
+				if msg == "" && rs.refuse == "" && !rs.direct {
+					// a request that is served is served by the handler of its own operation
+					if op, _ := s.ran.Load(token); op != rs.op {
+						msg = fmt.Sprintf("the request was answered %d but the handler that ran for its token is %v, not the one of %s", rec.Code, op, rs.op)
+					}
+				}
 				mu.Lock()
 				nByClass[rs.refuse]++
+				if rs.fail {
+					nByClass["handler-error"]++
+				}
+				if rs.refuse == "" && (rs.op == "delN" || rs.op == "headH") {
+					nByClass["no-body-answer"]++
+				}
 				if msg != "" {
-					line := fmt.Sprintf("[%s %s token=%s direct=%v] %s", rs.req.Method, rs.req.URL.RequestURI(), token, rs.direct, msg)
-					if rs.refuse != "" && rs.refuse != "nocred" && pv == nil {
+					flow := "served"
+					switch {
+					case rs.direct && rs.generated:
+						flow = "direct/generated"
+					case rs.direct:
+						flow = "direct/untyped"
+					case rs.wrapped:
+						flow = "wrapped"
+					}
+					own, text := splitSig(msg)
+					line := fmt.Sprintf("[%s %s token=%s flow=%s routable=%v struct=%v] %s", rs.req.Method, rs.req.URL.RequestURI(), token, flow, rs.routable || (rs.direct && rs.generated), rs.structTarget, text)
+					if own != "" {
+						if len(badOwn[own]) < 10 {
+							badOwn[own] = append(badOwn[own], line)
+						}
+					} else if rs.refuse != "" && rs.refuse != "nocred" && pv == nil {
 						if len(badRefusal[rs.refuse]) < 10 {
 							badRefusal[rs.refuse] = append(badRefusal[rs.refuse], line)
 						}
@@ -838,11 +1231,35 @@ func runConcurrentOnce(m *mon.M, cfg *RunCfg, salt int64) {
 	if len(bad) > 0 {
 		m.Violate("cross-talk-or-wrong-response", strings.Join(bad, "\n"), &one)
 	}
+	for sig, l := range badOwn {
+		m.Violate(sig, strings.Join(l, "\n"), &one)
+	}
+	// every request that has a route is looked up once, by whoever asks first (the wrapping middleware, the
+	// router, the first accessor of a direct flow); every later asker is served from the request value
+	if lk := atomic.LoadInt64(&hs.lookups); lk > routed {
+		m.Violate("route-looked-up-again/concurrent-run", fmt.Sprintf("%d route lookups found a route in a run of %d requests that have one: a later asker looked the route up again", lk, routed), &one)
+	} else if lk < routed {
+		m.Class("fewer-lookups-than-routed-requests")
+	}
+	if nv := atomic.LoadInt64(&hs.validations); nv > validating {
+		m.Violate("request-validated-again/concurrent-run", fmt.Sprintf("%d request validations in a run in which %d requests are bound through BindAndValidate, once each", nv, validating), &one)
+	}
+	m.Note("route_lookups", atomic.LoadInt64(&hs.lookups))
+	m.Note("routed_requests", routed)
+	s.unrouted.mu.Lock()
+	if len(s.unrouted.list) > 0 {
+		m.Violate("builder-did-not-see-matched-route", strings.Join(s.unrouted.list, "\n"), &one)
+	}
+	s.unrouted.mu.Unlock()
 	for class, l := range badRefusal {
 		m.Violate("refusal-under-concurrency/"+class, strings.Join(l, "\n"), &one)
 	}
 	for class, n := range nByClass {
-		if class != "" {
+		switch class {
+		case "":
+		case "handler-error", "no-body-answer":
+			m.Note("concurrent_"+class, n)
+		default:
 			m.Note("concurrent_refusals_"+class, n)
 		}
 	}
@@ -859,6 +1276,7 @@ func runConcurrentOnce(m *mon.M, cfg *RunCfg, salt int64) {
 	if m.WantSample() {
 		m.Sample(map[string]interface{}{"cfg": cfg, "served": served, "max_inflight": maxInflight, "hook_events": ntrace, "trace_hash": th})
 	}
+	return maxInflight >= 2
 }
 
 func bucket(n int64) string {
@@ -884,7 +1302,7 @@ type SeqCase struct {
 	CT     string   `json:"ct"`     // content type header ("" = none)
 	Accept string   `json:"accept"` // Accept header
 	Body   bool     `json:"body"`
-	Steps  []string `json:"steps"` // R C F A B X(resetAuth)
+	Steps  []string `json:"steps"` // R C F A B X(resetAuth) P(Respond) G(BindValidRequest into a struct) S(serve through the handler)
 	// Escaped: the request path carries percent-escapes
 	Escaped bool `json:"escapedPath,omitempty"`
 	// Token: the client's token, carried by every value of the request ("" = "seq")
@@ -896,6 +1314,14 @@ type SeqCase struct {
 	Before string `json:"before,omitempty"`
 	// RewriteCT: after the first successful ContentType the Content-Type header is replaced by another valid one
 	RewriteCT bool `json:"rewriteCT,omitempty"`
+	// Routable: the accessors are those of the Context generated servers build (NewRoutableContext over a
+	// RoutableAPI), and step S serves through its handler
+	Routable bool `json:"routable,omitempty"`
+	// StructBind: step G binds into a parameter struct
+	StructBind bool `json:"structBind,omitempty"`
+
+	// quiet: the sequence is judged but not counted as non-trivial (see run)
+	quiet bool
 }
 
 type countingBody struct {
@@ -978,6 +1404,10 @@ func seqRequest(sc *SeqCase, token, cred string, withBody bool) (*http.Request, 
 	case "zero":
 		req.Header.Set("X-Key", v("k")+"~zero")
 		cands = append(cands, "")
+	case "deny":
+		// a principal the application's authorizer refuses
+		req.Header.Set("X-Key", v("k")+"~deny")
+		cands = append(cands, "P:"+v("k")+"~deny")
 	case "bearer":
 		req.Header.Set("Authorization", "Bearer "+v("b"))
 		cands = append(cands, "P:"+v("b"))
@@ -1029,13 +1459,13 @@ func (a authOutcome) String() string {
 }
 
 // authorizeOnce sends one fresh request through RouteInfo and Authorize.
-func authorizeOnce(s *server, req *http.Request) (out authOutcome, ok bool) {
+func authorizeOnce(ctx *middleware.Context, req *http.Request) (out authOutcome, ok bool) {
 	pv, _ := mon.Catch(func() {
-		rr, r1, found := s.ctx.RouteInfo(req)
+		rr, r1, found := ctx.RouteInfo(req)
 		if !found {
 			return
 		}
-		p, r2, err := s.ctx.Authorize(r1, rr)
+		p, r2, err := ctx.Authorize(r1, rr)
 		out = authOutcome{refused: err != nil, principal: p, scopes: scopeString(r2)}
 		ok = true
 	})
@@ -1048,13 +1478,20 @@ func runSequence(m *mon.M, s *server, sc *SeqCase, cfg *RunCfg) {
 		token = "seq"
 	}
 	req, cb, cands := seqRequest(sc, token, sc.Cred, sc.Body)
+	ctx, handler := s.ctx, s.handler
+	if sc.Routable {
+		ctx, handler = s.gctx, s.ghandler
+	}
+	if sc.StructBind {
+		req.Header.Set("X-Bind", "struct")
+	}
 	bearer := ""
 	if sc.Cred == "bearer" || sc.Cred == "both" {
 		bearer = token + "~b"
 	}
 	fail := func(sig, detail string) {
 		one := &RunCfg{Kind: "sequence", Seq: sc}
-		m.Violate(sig, fmt.Sprintf("%s ; case op=%s cred=%s ct=%q accept=%q body=%v n=%q before=%q steps=%v", detail, sc.Op, sc.Cred, sc.CT, sc.Accept, sc.Body, sc.N, sc.Before, sc.Steps), one)
+		m.Violate(sig, fmt.Sprintf("%s ; case op=%s cred=%s ct=%q accept=%q body=%v n=%q before=%q routable=%v steps=%v", detail, sc.Op, sc.Cred, sc.CT, sc.Accept, sc.Body, sc.N, sc.Before, sc.Routable, sc.Steps), one)
 	}
 
 	// what this request is granted when nothing precedes it here, then another client's request to the same
@@ -1063,9 +1500,9 @@ func runSequence(m *mon.M, s *server, sc *SeqCase, cfg *RunCfg) {
 	probed := false
 	if sc.Before != "" {
 		pr, _, _ := seqRequest(sc, token, sc.Cred, false)
-		probe, probed = authorizeOnce(s, pr)
+		probe, probed = authorizeOnce(ctx, pr)
 		other, _, _ := seqRequest(sc, "other", sc.Before, false)
-		authorizeOnce(s, other)
+		authorizeOnce(ctx, other)
 	}
 
 	var lookups, validations int64
@@ -1091,13 +1528,19 @@ func runSequence(m *mon.M, s *server, sc *SeqCase, cfg *RunCfg) {
 	var memoBindErr string
 	var memoBound string
 	ctRewritten := false
+	// what the matched route read when it was first answered; served: the handler has served the request value
+	var routeFirst string
+	served := false
 	for i, st := range sc.Steps {
 		before := struct{ l, a, c, v int64 }{atomic.LoadInt64(&lookups), atomic.LoadInt64(&s.authCalls), atomic.LoadInt64(&s.consumed), atomic.LoadInt64(&validations)}
 		var stepErr interface{}
 		switch st {
 		case "R":
 			stepErr, _ = mon.Catch(func() {
-				rr, r2, ok := s.ctx.RouteInfo(cur)
+				rr, r2, ok := ctx.RouteInfo(cur)
+				if routeMemo && (!ok || rr == nil) {
+					fail("route-memo-lost", fmt.Sprintf("step %d RouteInfo finds no route on the request value that carries one", i))
+				}
 				if ok {
 					if routeMemo {
 						if atomic.LoadInt64(&lookups) != before.l {
@@ -1105,8 +1548,12 @@ func runSequence(m *mon.M, s *server, sc *SeqCase, cfg *RunCfg) {
 						}
 						if rr != route {
 							fail("route-memo-differs", fmt.Sprintf("step %d RouteInfo returned a different MatchedRoute", i))
+						} else if now := routeSnap(rr); now != routeFirst {
+							// what a later asker is handed is the route of this request, as it was found
+							fail("route-memo-differs/content", fmt.Sprintf("step %d RouteInfo answers {%s}, the first asker was answered {%s}", i, now, routeFirst))
 						}
 					} else if rr != nil {
+						routeFirst = routeSnap(rr)
 						// first answer: the route of this request, with this request's path values
 						if rr.Operation == nil || rr.Operation.ID != sc.Op {
 							fail("route-of-another-request", fmt.Sprintf("step %d RouteInfo matched %q", i, rr.PathPattern))
@@ -1126,7 +1573,7 @@ func runSequence(m *mon.M, s *server, sc *SeqCase, cfg *RunCfg) {
 			})
 		case "C":
 			stepErr, _ = mon.Catch(func() {
-				mt, cs, r2, err := s.ctx.ContentType(cur)
+				mt, cs, r2, err := ctx.ContentType(cur)
 				if err == nil {
 					if ctMemo {
 						if mt != memoCT {
@@ -1171,7 +1618,7 @@ func runSequence(m *mon.M, s *server, sc *SeqCase, cfg *RunCfg) {
 						offers = []string{"application/json"}
 					}
 				}
-				f, r2 := s.ctx.ResponseFormat(cur, offers)
+				f, r2 := ctx.ResponseFormat(cur, offers)
 				if fmtMemo && f != memoFmt {
 					fail("format-renegotiated", fmt.Sprintf("step %d ResponseFormat %q, first successful negotiation gave %q", i, f, memoFmt))
 				}
@@ -1183,11 +1630,11 @@ func runSequence(m *mon.M, s *server, sc *SeqCase, cfg *RunCfg) {
 				}
 			})
 		case "A":
-			if route == nil {
+			if route == nil || served {
 				continue
 			}
 			stepErr, _ = mon.Catch(func() {
-				p, r2, err := s.ctx.Authorize(cur, route)
+				p, r2, err := ctx.Authorize(cur, route)
 				calls := atomic.LoadInt64(&s.authCalls) - before.a
 				if authMemo {
 					if calls != 0 {
@@ -1200,6 +1647,10 @@ func runSequence(m *mon.M, s *server, sc *SeqCase, cfg *RunCfg) {
 					}
 				} else if route.HasAuth() {
 					got := authOutcome{refused: err != nil, principal: p, scopes: scopeString(r2)}
+					if sc.Cred == "deny" && err == nil && (sc.Op == "getA" || sc.Op == "getB" || sc.Op == "getS") {
+						// the only credential of the request identifies a principal the authorizer refuses
+						fail("refused-principal-admitted", fmt.Sprintf("step %d Authorize admitted principal %v, which the application's authorizer refuses", i, p))
+					}
 					// computed from this request: its own credentials identify it, the stored principal is the
 					// returned one, the scopes are those of the alternative its credential satisfies
 					if err == nil && p != nil {
@@ -1234,16 +1685,86 @@ func runSequence(m *mon.M, s *server, sc *SeqCase, cfg *RunCfg) {
 				}
 			})
 		case "X":
+			if served {
+				continue
+			}
 			stepErr, _ = mon.Catch(func() {
-				cur = s.ctx.ResetAuth(cur)
+				cur = ctx.ResetAuth(cur)
 				authMemo, memoPrincipal = false, nil
 			})
-		case "B":
+		case "P":
+			// Respond is a later asker of the format: it answers in the format a successful negotiation on this
+			// request value produced, whatever the list it is called with
 			if route == nil {
 				continue
 			}
 			stepErr, _ = mon.Catch(func() {
-				bound, r2, err := s.ctx.BindAndValidate(cur, route)
+				produces := append([]string(nil), route.Produces...)
+				if fmtMemo && i%2 == 0 {
+					if memoFmt == "application/json" {
+						produces = []string{"text/plain"}
+					} else {
+						produces = []string{"application/json"}
+					}
+				}
+				rec := httptest.NewRecorder()
+				ctx.Respond(rec, cur, produces, route, map[string]interface{}{"t": token})
+				if got := rec.Header().Get("Content-Type"); fmtMemo && got != memoFmt {
+					fail("respond-renegotiated-format", fmt.Sprintf("step %d Respond (produces %v) answered with Content-Type %q, the successful negotiation on this request value gave %q", i, produces, got, memoFmt))
+				}
+				if atomic.LoadInt64(&lookups) != before.l || atomic.LoadInt64(&s.authCalls) != before.a || atomic.LoadInt64(&s.consumed) != before.c {
+					fail("respond-recomputed-a-stage", fmt.Sprintf("step %d Respond looked a route up, consulted an authenticator or ran a consumer", i))
+				}
+			})
+		case "G":
+			// the parameter object of a generated server binds into a struct (no body: BindValidRequest keeps no result)
+			if route == nil || served || sc.Body || !sc.StructBind {
+				continue
+			}
+			stepErr, _ = mon.Catch(func() {
+				gp := &genParams{s: s}
+				if err := ctx.BindValidRequest(cur, route, gp); err == nil {
+					for _, k := range []string{"id", "x", "q"} {
+						if sv, ok := gp.bound[k].(string); ok && !strings.HasPrefix(sv, token+"~") {
+							fail("bound-values-of-another-request/struct-target", fmt.Sprintf("step %d bound %s=%q in the request of token %q", i, k, sv, token))
+						}
+					}
+				}
+			})
+		case "S":
+			// the whole handler serves the request value the accessors have been threading: every stage that has
+			// a result on it is a memo hit inside, and the route the earlier askers hold is still theirs afterwards
+			if route == nil || served || (sc.Routable && bindMemo) {
+				continue
+			}
+			stepErr, _ = mon.Catch(func() {
+				cur.Header.Set("X-Asked", "1")
+				handler.ServeHTTP(httptest.NewRecorder(), cur)
+				served = true
+				if atomic.LoadInt64(&lookups) != before.l {
+					fail("route-recomputed/by-the-handler", fmt.Sprintf("step %d the handler looked the route up again for a request value that carries it", i))
+				}
+				if authMemo && atomic.LoadInt64(&s.authCalls) != before.a {
+					fail("authenticator-consulted-again/by-the-handler", fmt.Sprintf("step %d the handler consulted an authenticator although the request value carries a principal", i))
+				}
+				if bindMemo && !sc.Routable {
+					if atomic.LoadInt64(&s.consumed) != before.c {
+						fail("body-consumed-again/by-the-handler", fmt.Sprintf("step %d the handler ran the consumer again", i))
+					}
+					if atomic.LoadInt64(&validations) != before.v {
+						fail("binding-recomputed/by-the-handler", fmt.Sprintf("step %d the handler validated the request again", i))
+					}
+				}
+				if now := routeSnap(route); now != routeFirst {
+					fail("matched-route-not-kept/after-the-handler", fmt.Sprintf("step %d after the handler returned, the route the first RouteInfo answered reads {%s}; it read {%s}", i, now, routeFirst))
+				}
+			})
+		case "B":
+			if route == nil || served {
+				continue
+			}
+			stepErr, _ = mon.Catch(func() {
+				bound, r2, err := ctx.BindAndValidate(cur, route)
 				es := ""
 				if err != nil {
 					es = err.Error()
@@ -1301,7 +1822,10 @@ func runSequence(m *mon.M, s *server, sc *SeqCase, cfg *RunCfg) {
 		fail("body-consumed-more-than-once", fmt.Sprintf("consumer ran %d times", s.consumed))
 	}
 	if cb != nil && cb.readsAfter > 0 && atomic.LoadInt64(&s.consumed) > 0 {
-		// a single consumer may legitimately poll EOF twice; more than a couple of reads after the end means a second pass
+		// a single consumer may legitimately poll EOF twice; more than a couple of reads after the end means a second pass.
+		// (The bound 3 is how often bufio + encoding/json ask again after EOF with the Go 1.23 toolchain; a second run of
+		// a consumer is judged on its own above (body-consumed-more-than-once), so a toolchain that polls more often would
+		// show here first, as an alarm to be re-triaged, not as a missed defect.)
 		if cb.readsAfter > 3 {
 			fail("body-read-after-end", fmt.Sprintf("%d reads after end-of-stream", cb.readsAfter))
 		}
@@ -1315,10 +1839,16 @@ func runSequence(m *mon.M, s *server, sc *SeqCase, cfg *RunCfg) {
 		}
 		seen[st] = true
 	}
-	if rep {
-		m.NT(fmt.Sprintf("seq|%s|%s|%s|%s|%v|%v|%s|%s|%s|%v", sc.Op, sc.Cred, sc.CT, sc.Accept, sc.Body, sc.Escaped, strings.Join(sc.Steps, ""), sc.N, sc.Before, sc.RewriteCT))
+	if rep && !sc.quiet {
+		m.NT(fmt.Sprintf("seq|%s|%s|%s|%s|%v|%v|%s|%s|%s|%v|%v|%v", sc.Op, sc.Cred, sc.CT, sc.Accept, sc.Body, sc.Escaped, strings.Join(sc.Steps, ""), sc.N, sc.Before, sc.RewriteCT, sc.Routable, sc.StructBind))
 	}
 	m.Class("sequence")
+	if sc.Routable {
+		m.Class("sequence-on-routable-context")
+	}
+	if served {
+		m.Class("sequence-served-by-the-handler")
+	}
 	if sc.Before != "" {
 		m.Class("sequence-after-other-client")
 	}
@@ -1330,7 +1860,7 @@ func runSequence(m *mon.M, s *server, sc *SeqCase, cfg *RunCfg) {
 func genSeq(r *rand.Rand) *SeqCase {
 	sc := &SeqCase{
 		Op:   []string{"getA", "postA", "getB", "postA", "getS", "postV", "getS", "postV"}[r.Intn(8)],
-		Cred: []string{"good", "good", "bad", "none", "zero", "bearer", "both"}[r.Intn(7)],
+		Cred: []string{"good", "good", "bad", "none", "zero", "bearer", "both", "deny"}[r.Intn(8)],
 		CT: []string{"application/json", "application/json; charset=utf-8", "", "text/plain", "bogus/",
 			"text/plain;charset=ISO-8859-1", "application/json; charset=utf-8", "Application/JSON; Charset=\"utf-16\"; q=1"}[r.Intn(8)],
 		Accept: []string{"application/json", "text/plain", "", "image/png", "text/plain;q=0.5, application/json;q=0.4"}[r.Intn(5)],
@@ -1350,8 +1880,13 @@ func genSeq(r *rand.Rand) *SeqCase {
 		}
 	}
 	sc.RewriteCT = r.Intn(2) == 0
+	sc.Routable = r.Intn(2) == 0
 	n := 2 + r.Intn(11)
-	steps := "RCFABX"
+	steps := "RCFABXP"
+	if sc.Routable && !sc.Body && r.Intn(2) == 0 {
+		sc.StructBind = true
+		steps += "G"
+	}
 	sc.Steps = append(sc.Steps, "R")
 	for len(sc.Steps) < n {
 		c := steps[r.Intn(len(steps))]
@@ -1359,6 +1894,13 @@ func genSeq(r *rand.Rand) *SeqCase {
 			c = 'A'
 		}
 		sc.Steps = append(sc.Steps, string(c))
+	}
+	// a third of the sequences end with the handler serving the threaded request value, then the askers again
+	if r.Intn(3) == 0 {
+		sc.Steps = append(sc.Steps, "S", "R")
+		if r.Intn(2) == 0 {
+			sc.Steps = append(sc.Steps, "P")
+		}
 	}
 	return sc
 }
@@ -1369,10 +1911,23 @@ func run(m *mon.M) {
 	r := m.Rand("c09")
 	nruns := m.N(20, 300)
 	procs := []int{1, 2, 4, 16}
+	overlapped := 0
+	t0 := time.Now()
 	for i := 0; i < nruns; i++ {
 		cfg := &RunCfg{Kind: "concurrent", Seed: r.Int63n(1 << 40), Goroutines: []int{8, 16, 32, 64}[r.Intn(4)], PerG: m.N(25, 40), MaxProcs: procs[(i+m.Shard)%len(procs)]}
 		m.Begin(cfg)
-		runConcurrent(m, cfg)
+		if runConcurrent(m, cfg) {
+			overlapped++
+		}
+	}
+	// the coverage floor of the concurrent half is its own: a worker in which fewer than half of the runs had two
+	// requests in flight at once contributes no non-trivial sequence either, so that a run without overlap ends
+	// below the floor (INCONCLUSIVE) instead of being carried by the sequences
+	m.Note("ms_concurrent_runs", time.Since(t0).Milliseconds()) // evidence only
+	t0 = time.Now()
+	vacuous := 2*overlapped < nruns
+	if vacuous {
+		m.Note("workers_without_overlap", 1)
 	}
 	s, err := buildServer()
 	if err != nil {
@@ -1386,13 +1941,20 @@ func run(m *mon.M) {
 		if i%500 == 0 {
 			m.Begin(&RunCfg{Kind: "sequence", Seq: sc})
 		}
+		sc.quiet = vacuous
 		runSequence(m, s, sc, nil)
 	}
+	m.Note("ms_sequences", time.Since(t0).Milliseconds())
 	s.xt.mu.Lock()
 	if len(s.xt.list) > 0 {
 		m.Violate("in-pipeline-cross-talk/sequences", strings.Join(s.xt.list, "\n"), nil)
 	}
 	s.xt.mu.Unlock()
+	s.unrouted.mu.Lock()
+	if len(s.unrouted.list) > 0 {
+		m.Violate("builder-did-not-see-matched-route/sequences", strings.Join(s.unrouted.list, "\n"), nil)
+	}
+	s.unrouted.mu.Unlock()
 	s.bothMu.Lock()
 	if len(s.hist) > 0 {
 		m.Violate("admitting-alternative-depends-on-other-requests/sequences", strings.Join(s.hist, "\n"), nil)
@@ -1413,6 +1975,13 @@ func replay(m *mon.M, raw json.RawMessage) {
 			return
 		}
 		runSequence(m, s, cfg.Seq, &cfg)
+		one := &RunCfg{Kind: "sequence", Seq: cfg.Seq}
+		if len(s.xt.list) > 0 {
+			m.Violate("in-pipeline-cross-talk/sequences", strings.Join(s.xt.list, "\n"), one)
+		}
+		if len(s.unrouted.list) > 0 {
+			m.Violate("builder-did-not-see-matched-route/sequences", strings.Join(s.unrouted.list, "\n"), one)
+		}
 		return
 	}
 	runConcurrent(m, &cfg)
